@@ -293,6 +293,15 @@ impl LightClientProtocol {
             );
             return Err(StatusCode::InvalidChainRoot.with_context(errmsg));
         }
+        // Check Total Difficulty
+        if verifiable_header.checked_total_difficulty().is_none() {
+            let errmsg = format!(
+                "total difficulty is overflow for block#{}, hash: {:#x}",
+                header.number(),
+                header.hash()
+            );
+            return Err(StatusCode::InvalidTotalDifficulty.with_context(errmsg));
+        }
         Ok(())
     }
 
